@@ -143,6 +143,11 @@ func c05Instances(name string, lvl int) []c05Inst {
 					continue // a big component of the upper operand only in the first position
 				}
 				add(c05Inst{construct: "A - B", rng: base + " - " + joinInts(u), lo: base, loIncl: true, hi: joinInts(u), hiIncl: true})
+				if u[1] == 0 && u[2] <= 1 && t[2] <= 1 {
+					// pre-release labels on either end are part of the bounds
+					add(c05Inst{construct: "A-pre - B", rng: base + "-beta.2 - " + joinInts(u), lo: base + "-beta.2", loIncl: true, hi: joinInts(u), hiIncl: true})
+					add(c05Inst{construct: "A - B-pre", rng: base + " - " + joinInts(u) + "-rc.1", lo: base, loIncl: true, hi: joinInts(u) + "-rc.1", hiIncl: true})
+				}
 			}
 		}
 		for _, t := range t2 {
